@@ -43,18 +43,18 @@ func approvals(rng *kernel.RNG, op string, target int64, nval int) []kernel.Step
 
 // GenWorkload produces a list of transaction steps and "block" cuts.
 func GenWorkload(rng *kernel.RNG, c GenCfg) []kernel.Step {
-	weights := map[string]int{"chain": 4, "import": 6, "cand": 3, "relayer": 2, "node": 2, "priv": 2, "noise": 2, "sig": 1, "burst": 1, "delonly": 0, "twoepochs": 1, "returning": 1, "ripple": 1}
+	weights := map[string]int{"chain": 4, "import": 6, "cand": 3, "relayer": 2, "node": 2, "priv": 2, "noise": 2, "sig": 1, "burst": 1, "delonly": 0, "twoepochs": 1, "returning": 1, "ripple": 1, "statevals": 1, "crossaction": 1, "ownervote": 1}
 	for k, v := range c.W {
 		weights[k] = v
 	}
 	// swarm: switch some families off entirely in some runs
-	for _, k := range []string{"chain", "import", "cand", "relayer", "node", "priv", "noise", "sig", "burst", "delonly", "twoepochs", "returning", "ripple"} {
+	for _, k := range []string{"chain", "import", "cand", "relayer", "node", "priv", "noise", "sig", "burst", "delonly", "twoepochs", "returning", "ripple", "statevals", "crossaction", "ownervote"} {
 		if _, forced := c.W[k]; !forced && rng.Chance(0.15) {
 			weights[k] = 0
 		}
 	}
 	var fams []string
-	for _, k := range []string{"chain", "import", "cand", "relayer", "node", "priv", "noise", "sig", "burst", "delonly", "twoepochs", "returning", "ripple"} {
+	for _, k := range []string{"chain", "import", "cand", "relayer", "node", "priv", "noise", "sig", "burst", "delonly", "twoepochs", "returning", "ripple", "statevals", "crossaction", "ownervote"} {
 		for i := 0; i < weights[k]; i++ {
 			fams = append(fams, k)
 		}
@@ -200,6 +200,72 @@ func GenWorkload(rng *kernel.RNG, c GenCfg) []kernel.Step {
 						txs = append(txs, S("import", id, dst, msg, st.A[1], v))
 					}
 				}
+			}
+		case "statevals":
+			// neo3 state-validator requests (ids count up from 0 per kind) with approval rounds,
+			// including rounds on ids that were already applied and removals that empty the set
+			own := int64(rng.Intn(nUsers))
+			switch rng.Intn(5) {
+			case 0, 1:
+				txs = append(txs, S("regsv", int64(rng.Intn(7)), own))
+				txs = append(txs, approvals(rng, "approvesv", int64(rng.Intn(3)), c.NVal)...)
+			case 2:
+				txs = append(txs, S("rmsv", int64(rng.Intn(7)), own))
+				txs = append(txs, approvals(rng, "approvermsv", int64(rng.Intn(3)), c.NVal)...)
+			case 3: // register a set, approve, remove exactly that set (empties it), approve, register again, approve, stale removal round
+				set, id := int64(rng.Intn(7)), int64(rng.Intn(2))
+				txs = append(txs, S("regsv", set, own))
+				txs = append(txs, approvals(rng, "approvesv", id, c.NVal)...)
+				txs = append(txs, S("rmsv", set, own))
+				txs = append(txs, approvals(rng, "approvermsv", id, c.NVal)...)
+				txs = append(txs, S("regsv", set, own))
+				txs = append(txs, approvals(rng, "approvesv", id+1, c.NVal)...)
+				txs = append(txs, approvals(rng, "approvermsv", id, c.NVal)...)
+			case 4:
+				txs = append(txs, approvals(rng, []string{"approvesv", "approvermsv"}[rng.Intn(2)], int64(rng.Intn(3)), c.NVal)...)
+			}
+		case "crossaction":
+			// approvals of DIFFERENT requests of one action whose key lists start with the same key:
+			// blackNode([a,b]) collects approvals below quorum, then blackNode([a,c]) / blackNode([a])
+			// is approved; approvals of one request must never count for the other
+			a := int64(rng.Intn(c.NVal))
+			b, c2 := int64(rng.Intn(c.NVal)), int64(rng.Intn(c.NVal))
+			perm := rng.Perm(c.NVal)
+			k := 1 + rng.Intn(quorum(c.NVal))
+			if k >= quorum(c.NVal) {
+				k = quorum(c.NVal) - 1
+			}
+			for i := 0; i < k; i++ {
+				txs = append(txs, S("blacknode", a, int64(perm[i]), b+1))
+			}
+			second := c2 + 1
+			if rng.Chance(0.4) {
+				second = 0
+			}
+			perm2 := rng.Perm(c.NVal)
+			n2 := 1 + rng.Intn(quorum(c.NVal))
+			for i := 0; i < n2; i++ {
+				txs = append(txs, S("blacknode", a, int64(perm2[i]), second))
+			}
+		case "ownervote":
+			// a candidate registered by an owner wallet different from its node key becomes a
+			// consensus member; afterwards its OWNER WALLET (not a validator) votes in import rounds
+			cnd, own := nv+int64(rng.Intn(nCands)), nv+int64(nCands)+int64(rng.Intn(nUsers))
+			txs = append(txs, S("regcand", cnd, own))
+			for i, pi := range rng.Perm(c.NVal) {
+				if i < quorum(c.NVal) {
+					txs = append(txs, S("approvecand", cnd, int64(pi)))
+				}
+			}
+			txs = append(txs, S("cut"), S("commitdpos", 0, anyone()), S("cut"))
+			src, dst, msg := regID(), regID(), int64(rng.Intn(6))
+			perm := rng.Perm(c.NVal)
+			for i := 0; i < quorum(c.NVal)-1 && i < len(perm); i++ {
+				txs = append(txs, S("import", src, dst, msg, int64(perm[i]), 0))
+			}
+			txs = append(txs, S("import", src, dst, msg, own, 0))
+			if rng.Chance(0.5) {
+				txs = append(txs, S("import", src, dst, msg, cnd, 0))
 			}
 		case "delonly":
 			// a transaction that only deletes (unRegisterCandidate by the right owner, a whitelisting
